@@ -37,3 +37,26 @@ def adjust_intervals(intervals: Arr(Real, None, 2), labels: Opt(Lst(ObjT)) = Non
     ensures(implies(not is_none(t_max), out[m - 1, 1] == val(t_max) and forall(0, m, lambda k: out[k, 1] <= val(t_max))), label='ends-at-t_max', props="C13")
     ensures(forall(0, m, lambda k: out[k, 0] < out[k, 1]), label='positive-duration', props="C13 C14")
     ensures(forall2(0, m, lambda k, l: implies(k < l, out[k, 1] <= out[l, 0])), label='ordered', props="C13")
+
+
+def sorted_pairwise(x):
+    return forall2(0, length(x), lambda i, j: implies(i < j, x[i] <= x[j]))
+
+
+@contract("mir_eval.util.adjust_events", props="C13 C14", shards=4)
+def adjust_events(events: Arr(Real, None), labels: Opt(Lst(ObjT)) = None, t_min: Opt(Real) = 0.0, t_max: Opt(Real) = None, label_prefix: ObjT = "__"):
+    n = length(events)
+    requires(n >= 1, sorted_pairwise(events))
+    requires(implies(not is_none(labels), length(val(labels)) == n))
+    requires(implies(not is_none(t_min) and not is_none(t_max), val(t_min) < val(t_max)))
+    # recorded finding KF-adjust-events-outside: event lists lying wholly before t_min are returned uncropped, lists wholly after t_max
+    # raise IndexError (same class as the adjust_intervals finding) - excluded here
+    requires(is_none(t_min) or events[n - 1] >= val(t_min), is_none(t_max) or events[0] <= val(t_max))
+    out = result[0]
+    lab = result[1]
+    m = length(out)
+    ensures(m >= 1, label='non-empty', props="C13")
+    ensures(implies(not is_none(labels), length(lab) == m), label='labels-length', props="C13")
+    ensures(implies(not is_none(t_min), out[0] == val(t_min) and forall(0, m, lambda k: out[k] >= val(t_min))), label='begins-at-t_min', props="C13")
+    ensures(implies(not is_none(t_max), out[m - 1] == val(t_max) and forall(0, m, lambda k: out[k] <= val(t_max))), label='ends-at-t_max', props="C13")
+    ensures(forall2(0, m, lambda k, l: implies(k < l, out[k] <= out[l])), label='sorted', props="C13")
